@@ -186,7 +186,8 @@ def select(cs, col, where, timeout=None, cache=True, label='cold'):
     except Exception as e:  # noqa
         info = D.exc_info(e)
         col.violation('selection_failed', cs, {'exc': info, 'any_matrix': any_mat, 'timeout': timeout, 'via': label}, [],
-                      where=dict(where, exc=info['type'], site=info['site'], via=label))
+                      where=dict(where, exc=info['type'], site=info['site'], via=label,
+                                 starved=bool(info['type'] == 'RuntimeError' and 'Cannot find best encoder' in info['msg'])))
         return None, sel
     return mgr, sel
 
